@@ -524,7 +524,7 @@ func (inp Input) ABIType(pos int) (int, atype) {
 		base = tuple(fields...)
 	case strings.HasPrefix(inp.Type, "bytes"):
 		switch {
-		case strings.TrimSuffix(strings.TrimPrefix(inp.Type, "bytes"), "[") == "":
+		case inp.Type == "bytes" || strings.HasPrefix(inp.Type, "bytes["):
 			base = dynamic()
 		default:
 			base = static()
